@@ -209,6 +209,7 @@ def do_restart(world, rep, op):
     if op.get('keys'):
         rkw['keys'] = True
     st, h = call(reader, source, **rkw)
+    world.last_derived = h if st == 'ok' else None
     fired_r = fs.fired.get('F-RD', 0) > before
     n_reads = fs.n_reads
     fs.fail_read = None
@@ -344,6 +345,7 @@ def restart_json(world, rep, op):
         world.count('restart.json.same-dict-twice')
     before = copy.deepcopy(data2)
     st, h = call(json_graph.node_link_graph, *args, **akw)
+    world.last_derived = h if st == 'ok' else None
     if st != 'ok':
         raise Violation(tag + '.graph', 'raises', {'op': op, 'exc': exc_class(h), 'msg': str(h)[:200]})
     hm = ModelGraph(want_directed, True)
